@@ -23,7 +23,7 @@ RULE = ("hypothesis-generated values (derandomised from the seed) from the lossl
         "x level; non-trivial = not a bare scalar None/bool")
 ASSUMPTIONS = ["ints bounded by CPython's int<->str digit limit", "datetimes: naive, whole milliseconds, TZ=UTC",
                "values a serializer refuses are only required to be refused on every path alike"]
-REQUIRED_REACH = ["concurrent_wire_calls", "shards_with_serpent_bytes_repr", "codec_core_ok", "codec_ext_ok", "wire_ok", "wire_batch_ok", "wire_stream_ok", "wire_compressed_request", "wire_compressed_reply", "wire_with_annotations", "codec_memoryview_same"]
+REQUIRED_REACH = ["huge_int_cases", "concurrent_wire_calls", "shards_with_serpent_bytes_repr", "codec_core_ok", "codec_ext_ok", "wire_ok", "wire_batch_ok", "wire_stream_ok", "wire_compressed_request", "wire_compressed_reply", "wire_with_annotations", "codec_memoryview_same"]
 SHARD_TIMEOUT = {"quick": 220, "thorough": 2400}
 RAISED = object()
 
@@ -402,6 +402,49 @@ def concurrent_wire_phase(fx, svc, rec, r):
         rec.violation("value-changed-under-concurrency", "%d of the calls made by 7 concurrent clients did not get their own value; first: %s" % (len(problems), problems[0]), None)
 
 
+def huge_int_phase(fx, svc, rec):
+    """integers FAR beyond 64 bits: more decimal digits than the interpreter is willing to print (int/str conversion limit, 4300 digits). A
+    serializer that ships integers in binary (marshal) carries them on every path; one that writes decimal text refuses them - on every path.
+    (Nothing here prints such a number: comparisons are on the int objects.)"""
+    P = fx.P
+    values = {"10**4400": 10 ** 4400, "-(10**5000)+7": -(10 ** 5000) + 7}
+    for name in fixture.SERIALIZERS:
+        for label, v in values.items():
+            for shape in ("bare", "nested"):
+                x = v if shape == "bare" else [1, {"k": v}]
+                key = "huge-%s-%s-%s" % (name, label, shape)
+                outs = {}
+                with fx.proxy("echo", serializer=name, timeout=20.0) as p:
+                    for path in ("arg", "kw", "result", "batch"):
+                        try:
+                            if path == "arg":
+                                p.echo(key, x)
+                                with svc.lock:
+                                    got = svc.received.pop(key)[0][0]
+                            elif path == "kw":
+                                p.echo(key, k=x)
+                                with svc.lock:
+                                    got = svc.received.pop(key)[1]["k"]
+                            elif path == "result":
+                                svc.store[key] = x
+                                got = p.get(key)
+                            else:
+                                svc.store[key] = x
+                                b = P.client.BatchProxy(p)
+                                b.get(key)
+                                got = list(b())[0]
+                            outs[path] = "same" if got == x and type(got) is type(x) else "changed"
+                        except Exception as e:
+                            outs[path] = "raises " + type(e).__name__
+                rec.case(("hugeint", name, label, shape, fx.servertype), nontrivial=True)
+                rec.count("huge_int_cases")
+                kinds = set(outs.values())
+                if "changed" in kinds or (len(kinds) > 1) or (name == "marshal" and kinds != {"same"}):
+                    rec.violation("arg-result-mapping-differs-on-wire:%s" % name, "%s, the integer %s (%s): positional argument -> %s, keyword argument -> %s, result -> %s, batch result -> %s" % (
+                        name, label, shape, outs["arg"], outs["kw"], outs["result"], outs["batch"]), None)
+                    return
+
+
 def nontrivial(x):
     return not (x is None or isinstance(x, bool))
 
@@ -493,6 +536,8 @@ def run_shard(shard, rec):
         gen.draw_many(gen.ext_values(8), shard["n"] // 2, seed + 6, ext_case)
         if shard["servertype"] == "thread":
             concurrent_wire_phase(fx, svc, rec, r)
+        if shard["i"] == 0:
+            huge_int_phase(fx, svc, rec)
         for kind, text in fixture.take_faults():
             rec.violation("server-thread-fault", "%s: %s" % (kind, text), None)
     finally:
